@@ -34,6 +34,12 @@ def run(ctx):
             d = gen.gen_definition(ctx.rng, n_state=ctx.rng.choice([2, 3]), n_control=nc and ctx.rng.choice([1, 2]),
                                    n_calib=nk and ctx.rng.choice([1, 2]), n_sensors=ctx.rng.choice([1, 2]), depth=2)
             d._kind = "ekf"
+            if rep % 2 == 0:
+                # a sensor with >= 2 readings declared in non-sorted order
+                k0 = sorted(d.sensors)[0]
+                while len(d.sensors[k0]) < 2:
+                    d.sensors[k0][gen.fresh_names(ctx.rng, 1, {x.name for x in d.all_symbols()} | set(d.sensors[k0]))[0]] = d.state[-1] * 2 + d.state[0]
+                gen.unsort_readings(d)
             process, sensor = eh.make_noises(ctx.rng, d)
             pt0 = gen.gen_point(ctx.rng, d)
             cal = pt0["cal"]
